@@ -169,6 +169,23 @@ pub fn build_sys(net: &Net, k: u16, bits: &[ParamBit]) -> Result<Sys, String> {
     Ok(Sys { net: net.clone(), bn, graph, book, k, canon_graph, canon_book })
 }
 
+/// A graph whose network variables have DIFFERENT numbers of spare copies (built the way
+/// `get_extended_symbolic_graph` builds its graphs, with a per-variable count); `k` of the result
+/// is the minimum, i.e. the number of state variables the graph really supports.
+pub fn build_sys_uneven(net: &Net, counts: &[u16], bits: &[ParamBit]) -> Result<Sys, String> {
+    use biodivine_lib_param_bn::symbolic_async_graph::SymbolicContext;
+    let bn = parse_bn(net)?;
+    let map: HashMap<_, _> = bn.variables().zip(counts.iter().copied()).collect();
+    let context = SymbolicContext::with_extra_state_variables(&bn, &map)?;
+    let unit = context.mk_constant(true);
+    let graph = SymbolicAsyncGraph::with_custom_context(&bn, context, unit)?;
+    let book = book_for(net, &graph, bits)?;
+    let canon_graph = SymbolicAsyncGraph::new(&bn)?;
+    let canon_book = book_for(net, &canon_graph, bits)?;
+    let k = counts.iter().copied().min().unwrap_or(0);
+    Ok(Sys { net: net.clone(), bn, graph, book, k, canon_graph, canon_book })
+}
+
 impl Book {
     pub fn valuation(&self, state: u32, colour: &[bool], spare_ones: bool) -> BddValuation {
         let mut val = BddValuation::all_false(self.num_vars);
